@@ -489,27 +489,28 @@ Qed.
 Variable wait : Z.
 Hypothesis wait_pos : 0 < wait.
 
-Lemma timed_run_chunks : forall steps now ts,
+Lemma timed_run_chunks : forall ht steps now ts,
   (forall c gap, In (c, gap) steps -> 0 <= gap < wait) ->
   (length (i_buf (t_in ts)) < cap)%nat ->
   match push_chunks tok cap (t_in ts) (map fst steps) with
-  | Some (evs, s') => exists ms d, timed_run tok cap wait false now ts steps = Some (evs, ms, mkT s' d)
-  | None => timed_run tok cap wait false now ts steps = None
+  | Some (evs, s') => exists ms d, timed_run tok cap wait false false ht now ts steps = Some (evs, ms, mkT s' d)
+  | None => timed_run tok cap wait false false ht now ts steps = None
   end.
 Proof.
-  induction steps as [|[c gap] r IH]; intros now ts Hg Hb.
+  intros ht. induction steps as [|[c gap] r IH]; intros now ts Hg Hb.
   - cbn [map push_chunks timed_run]. exists [], (t_deadline ts). destruct ts; reflexivity.
   - cbn [map fst push_chunks timed_run]. unfold tpush.
     destruct (push_bytes tok cap (t_in ts) c) as [[evs s1]|] eqn:Ep; [|reflexivity].
     assert (Hgap : 0 <= gap < wait) by (apply (Hg c gap); left; reflexivity).
     assert (Hb1 : (length (i_buf s1) < cap)%nat).
     { rewrite push_bytes_upush in Ep by exact Hb. eapply upush_residue. exact Ep. }
-    set (d1 := if i_armed s1 then Some (now + wait) else None).
-    assert (Hpoll : exists m, tpoll (now + gap) (mkT s1 d1) = Some m).
+    set (now1 := now + ht * Z.of_nat (length evs)).
+    set (d1 := if i_armed s1 then Some (now1 + wait) else None).
+    assert (Hpoll : exists m, tpoll (now1 + gap) (mkT s1 d1) = Some m).
     { unfold tpoll, d1. cbn [t_deadline]. destruct (i_armed s1); [|eexists; reflexivity].
-      assert (E : (now + gap <? now + wait) = true) by (apply Z.ltb_lt; lia). rewrite E. eexists; reflexivity. }
+      assert (E : (now1 + gap <? now1 + wait) = true) by (apply Z.ltb_lt; lia). rewrite E. eexists; reflexivity. }
     destruct Hpoll as [m Hm]. rewrite Hm.
-    specialize (IH (now + gap) (mkT s1 d1)). cbn [t_in] in IH.
+    specialize (IH (now1 + gap) (mkT s1 d1)). cbn [t_in] in IH.
     assert (Hg' : forall c0 gap0, In (c0, gap0) r -> 0 <= gap0 < wait) by (intros c0 g0 Hin; apply (Hg c0 g0); right; exact Hin).
     specialize (IH Hg' Hb1).
     destruct (push_chunks tok cap s1 (map fst r)) as [[evs2 s2]|].
@@ -518,18 +519,18 @@ Proof.
 Qed.
 
 (* C20_timed_chunking: as long as every gap between fragments stays below the wait time -- however
-   long the fragments take together -- no time-out is forced and the events are those of the
-   whole stream pushed at once *)
-Theorem timed_chunking : forall steps c g now ts,
+   long the fragments take together, and however long the application's handlers take (ht) --
+   no time-out is forced and the events are those of the whole stream pushed at once *)
+Theorem timed_chunking : forall ht steps c g now ts,
   (forall c0 gap, In (c0, gap) ((c, g) :: steps) -> 0 <= gap < wait) ->
   (length (i_buf (t_in ts)) < cap)%nat ->
   match push_bytes tok cap (t_in ts) (concat (map fst ((c, g) :: steps))) with
-  | Some (evs, s') => exists ms d, timed_run tok cap wait false now ts ((c, g) :: steps) = Some (evs, ms, mkT s' d)
-  | None => timed_run tok cap wait false now ts ((c, g) :: steps) = None
+  | Some (evs, s') => exists ms d, timed_run tok cap wait false false ht now ts ((c, g) :: steps) = Some (evs, ms, mkT s' d)
+  | None => timed_run tok cap wait false false ht now ts ((c, g) :: steps) = None
   end.
 Proof.
-  intros steps c g now ts Hg Hb.
-  pose proof (timed_run_chunks ((c, g) :: steps) now ts Hg Hb) as H.
+  intros ht steps c g now ts Hg Hb.
+  pose proof (timed_run_chunks ht ((c, g) :: steps) now ts Hg Hb) as H.
   cbn [map fst] in *. rewrite (chunking_bounded (map fst steps) c (t_in ts) Hb) in H. exact H.
 Qed.
 
@@ -644,7 +645,16 @@ Definition esc_tok (b : list Z) : tokres :=
   end.
 
 Lemma stale_deadline_refuted :
-  timed_run esc_tok 256 50000 true 0 tst0 [([27], 30000); ([91], 30000); ([65], 0)] = None /\
-  timed_run esc_tok 256 50000 false 0 tst0 [([27], 30000); ([91], 30000); ([65], 0)] =
+  timed_run esc_tok 256 50000 true false 0 0 tst0 [([27], 30000); ([91], 30000); ([65], 0)] = None /\
+  timed_run esc_tok 256 50000 false false 0 0 tst0 [([27], 30000); ([91], 30000); ([65], 0)] =
     Some ([EvKey KEYEV_KEY 0 [85; 112]], [20; 20; -1], mkT (mkI [] 0 false) None).
+Proof. split; vm_compute; reflexivity. Qed.
+
+(* the seeded variant that reads the clock at the top of get_keys: a chunk holding a complete key
+   whose handler takes 70 ms (wait 50 ms) and then the start of a sequence; the poll that follows
+   at once forces the time-out, although the rest arrives immediately *)
+Lemma early_timestamp_refuted :
+  timed_run esc_tok 256 50000 false true 70000 0 tst0 [([97; 27], 0); ([91; 65], 0)] = None /\
+  timed_run esc_tok 256 50000 false false 70000 0 tst0 [([97; 27], 0); ([91; 65], 0)] =
+    Some ([EvKey KEYEV_TEXT 0 [97]; EvKey KEYEV_KEY 0 [85; 112]], [50; -1], mkT (mkI [] 0 false) None).
 Proof. split; vm_compute; reflexivity. Qed.
